@@ -12,7 +12,7 @@
    (Proofs/Math.v, C12) are floor / ceiling of the rational n/d. *)
 From SC Require Import Lib.Prelude Lib.Int Lib.Host Model.Math Proofs.Math Model.Vault
   Proofs.VaultSpec Proofs.VaultToken Proofs.VaultOps Proofs.VaultRate Proofs.VaultTrips Proofs.VaultLive Proofs.C05Final Proofs.VaultWealth Proofs.C05Final2
-  Run.C05 Proofs.C05Monitor.
+  Run.C05 Proofs.C05Monitor Proofs.C05Special.
 
 (* ---- the vault's configuration: the constructor succeeds exactly for an offset <= MAX_DECIMALS_OFFSET whose
    sum with the asset's decimals fits u32, storing the asset address and the offset; the library setters
@@ -309,6 +309,98 @@ Theorem C05_deposit_mint_fail_only_when_must : forall c n0 cs, 0 <= c_off c -> f
 Proof. exact deposit_mint_iff_final. Qed.
 Print Assumptions C05_deposit_mint_fail_only_when_must.
 
+(* ---- special addresses as parties.  [actor cl] is the address whose require_auth() opens the call: the operator
+   of deposit / mint / withdraw / redeem, the sender of a transfer, the owner of an approve, the spender of a
+   transfer_from.  A call whose actor is not among the signers fails in EVERY state, whoever the actor is (the
+   vault's own address, the asset token contract's address, an account) and whatever allowances or balances it
+   has; in particular (wf_call: the vault cannot sign) no call is ever performed BY the vault ---- *)
+Theorem C05_actor_def : forall cl, actor cl =
+  match cl with
+  | Deposit _ _ _ o _ | MintS _ _ _ o _ | Withdraw _ _ _ o _ | Redeem _ _ _ o _ => Some o
+  | ATransfer f _ _ _ | STransfer f _ _ _ => Some f
+  | AApprove o _ _ _ _ | SApprove o _ _ _ _ => Some o
+  | STransferFrom sp _ _ _ _ => Some sp
+  | AMint _ _ | Advance _ | Query _ | SetAsset _ | SetOffset _ => None
+  end.
+Proof. exact actor_unfold. Qed.
+Print Assumptions C05_actor_def.
+
+Theorem C05_unsigned_party_cannot_act : forall c s cl a,
+  actor cl = Some a -> auth_root (call_auths cl) a = false -> step c s cl = (s, Fail).
+Proof. exact unsigned_party_final. Qed.
+Print Assumptions C05_unsigned_party_cannot_act.
+
+Theorem C05_vault_cannot_act : forall c s cl, wf_call cl = true -> actor cl = Some V -> step c s cl = (s, Fail).
+Proof. exact vault_cannot_act_final. Qed.
+Print Assumptions C05_vault_cannot_act.
+
+(* ---- the vault's own address is never a SOURCE: on every reachable state it has granted no allowance, neither
+   on the asset token nor on its own shares; a successful call naming it as from / owner moves nothing (only the
+   zero amount passes); the shares held by the vault's own address never decrease, and the vault's assets decrease
+   only through a successful withdraw / redeem (which pays exactly the returned amounts: C05_moves_exactly) ---- *)
+Theorem C05_vault_grants_no_allowance : forall c n0 cs sp, 0 <= c_off c -> forallb wf_call cs = true ->
+  let s := run c (init c n0) cs in
+  allowance (now s) (asset s) V sp = 0 /\ allowance (now s) (share s) V sp = 0.
+Proof. exact vault_no_allowance_final. Qed.
+Print Assumptions C05_vault_grants_no_allowance.
+
+Theorem C05_vault_never_a_source : forall c n0 cs cl s' v evs,
+  0 <= c_off c -> forallb wf_call cs = true -> wf_call cl = true ->
+  let s := run c (init c n0) cs in
+  step c s cl = (s', Ok (v, evs)) ->
+  match cl with
+  | Deposit a _ f _ _ => f = V -> a = 0
+  | MintS _ _ f _ _ => f = V -> v = 0
+  | Withdraw a _ ow _ _ => ow = V -> a = 0 /\ v = 0
+  | Redeem x _ ow _ _ => ow = V -> x = 0 /\ v = 0
+  | STransferFrom _ f _ a _ => f = V -> a = 0
+  | ATransfer f _ _ _ | STransfer f _ _ _ => f <> V
+  | AApprove o _ _ _ _ | SApprove o _ _ _ _ => o <> V
+  | _ => True
+  end.
+Proof. exact vault_never_source_final. Qed.
+Print Assumptions C05_vault_never_a_source.
+
+Theorem C05_vault_holdings_locked : forall c n0 cs cl,
+  0 <= c_off c -> forallb wf_call cs = true -> wf_call cl = true ->
+  let s := run c (init c n0) cs in let s' := fst (step c s cl) in
+  bal (share s) V <= bal (share s') V /\
+  (total_assets s' < total_assets s ->
+   match cl with Withdraw _ _ _ _ _ | Redeem _ _ _ _ _ => snd (step c s cl) <> Fail | _ => False end).
+Proof. exact vault_holdings_final. Qed.
+Print Assumptions C05_vault_holdings_locked.
+
+(* ---- aliasing: an operator other than from / owner needs the allowance for what is moved, in every state and for
+   EVERY receiver - receiver = operator, receiver = owner, receiver = the vault included; a transfer_from always
+   needs it, spender = from included ---- *)
+Theorem C05_operator_needs_allowance : forall c s cl s' v evs, step c s cl = (s', Ok (v, evs)) ->
+  match cl with
+  | Deposit a _ f o _ => o <> f -> 0 <= a <= allowance (now s) (asset s) f o
+  | MintS _ _ f o _ => o <> f -> 0 <= v <= allowance (now s) (asset s) f o
+  | Withdraw _ _ ow o _ => o <> ow -> 0 <= v <= allowance (now s) (share s) ow o
+  | Redeem x _ ow o _ => o <> ow -> 0 <= x <= allowance (now s) (share s) ow o
+  | STransferFrom sp f _ a _ => 0 <= a <= allowance (now s) (share s) f sp
+  | _ => True
+  end.
+Proof. exact operator_needs_allowance_final. Qed.
+Print Assumptions C05_operator_needs_allowance.
+
+(* ---- allowance histories: past its live_until an allowance is dead, whatever amount is still stored, until it is
+   approved again (any state) ---- *)
+Theorem C05_expired_asset_allowance_unusable : forall c s o f,
+  snd (allow (asset s) f o) < now s -> o <> f ->
+  (forall a r au, 0 < a -> snd (step c s (Deposit a r f o au)) = Fail) /\
+  (forall x r au a, preview_mint c s x = Ok a -> 0 < a -> snd (step c s (MintS x r f o au)) = Fail).
+Proof. exact expired_allowance_final. Qed.
+Print Assumptions C05_expired_asset_allowance_unusable.
+
+Theorem C05_expired_share_allowance_unusable : forall c s o ow,
+  snd (allow (share s) ow o) < now s -> o <> ow ->
+  (forall x r au, 0 < x -> snd (step c s (Redeem x r ow o au)) = Fail) /\
+  (forall a r au sh, preview_withdraw c s a = Ok sh -> 0 < sh -> snd (step c s (Withdraw a r ow o au)) = Fail).
+Proof. exact expired_share_allowance_final. Qed.
+Print Assumptions C05_expired_share_allowance_unusable.
+
 (* ---- share accounting on every reachable state: any set of distinct holders owns at most the supply ---- *)
 Theorem C05_accounting_invariant : forall c n0 cs, 0 <= c_off c -> forallb wf_call cs = true ->
   let s := run c (init c n0) cs in
@@ -373,6 +465,26 @@ Example C05_vault_signature_would_break_rate :
   wf_call bad = false /\ snd (step ex_cfg s bad) = Ok (500, [(0%N, 0%N, 0%N, 1%N, 50, 500)]) /\
   total_assets (fst (step ex_cfg s bad)) = total_assets s /\
   total_supply (fst (step ex_cfg s bad)) = total_supply s + 500.
+Proof. vm_compute. repeat split. Qed.
+
+(* special parties on a reachable state: the vault's own address holds 500 shares (a deposit named it as receiver)
+   and 550 assets, user 1 has approved the vault as spender on both tokens - and still no call by or from the
+   vault goes through; only the zero amount passes; a withdrawal to the vault itself burns shares and keeps the
+   assets; an operator who is also the receiver needs the allowance *)
+Example C05_special_parties_nontrivial :
+  let cs := [AMint 1%N 1000; Deposit 500 1%N 1%N 1%N [(1%N, AFull)]; Deposit 50 0%N 1%N 1%N [(1%N, AFull)];
+             AApprove 1%N 0%N 100 200 [(1%N, ARoot)]; SApprove 1%N 0%N 100 200 [(1%N, ARoot)]] in
+  let s := run ex_cfg (init ex_cfg 100) cs in
+  forallb wf_call cs = true /\ total_assets s = 550 /\ bal (share s) V = 500 /\ allowance (now s) (asset s) 1%N V = 100 /\
+  snd (step ex_cfg s (Deposit 10 2%N V V [])) = Fail /\
+  snd (step ex_cfg s (Deposit 10 2%N V 2%N [(2%N, AFull)])) = Fail /\
+  snd (step ex_cfg s (Redeem 5 2%N V 2%N [(2%N, ARoot)])) = Fail /\
+  snd (step ex_cfg s (Deposit 10 1%N 1%N V [(1%N, AFull)])) = Fail /\
+  snd (step ex_cfg s (Redeem 5 1%N 1%N V [(1%N, ARoot)])) = Fail /\
+  snd (step ex_cfg s (Redeem 0 2%N V 2%N [(2%N, ARoot)])) = Ok (0, [(1%N, 2%N, 2%N, 0%N, 0, 0)]) /\
+  snd (step ex_cfg s (Withdraw 7 V 1%N 1%N [(1%N, ARoot)])) = Ok (70, [(1%N, 1%N, 0%N, 1%N, 7, 70)]) /\
+  total_assets (fst (step ex_cfg s (Withdraw 7 V 1%N 1%N [(1%N, ARoot)]))) = 550 /\
+  snd (step ex_cfg s (Redeem 30 2%N 1%N 2%N [(2%N, ARoot)])) = Fail.
 Proof. vm_compute. repeat split. Qed.
 
 (* observation (not part of the property; liveness at saturation): once total_supply + 10^offset exceeds
